@@ -39,7 +39,7 @@ package filters
 //@     data[r*rs] <= 4 && pngRowEnc(data[r*rs+1 : r*rs+rs], data[r*rs], img[r*rl : r*rl+rl], (r > 0 ? img[(r-1)*rl : r*rl] : zeros(rl)), bpp)
 
 //@ func applyPNGPredictor results (res, err)
-//@   flags pure, robust
+//@   flags pure, robust, overflow
 //@   property C05, C02
 //@   ghost img []byte
 //@   let cols = getIntParam(params, "Columns", 1)
@@ -68,7 +68,7 @@ package filters
 //@     hint pngRowOK(data, img, row, rs, rl, colors)
 
 //@ func applyTIFFPredictor2 results (res, err)
-//@   flags pure, robust
+//@   flags pure, robust, overflow
 //@   property C05, C02
 //@   ghost raw []byte
 //@   ghost cg []int
